@@ -70,7 +70,8 @@ class WC(CombinatorialClass[W]):
         if right is not None:
             if isinstance(right, dict):
                 right = WC.from_descriptor(dict(right, bytes=isinstance(self, WCB),
-                                                 hash="coarse" if isinstance(self, _CoarseHash) else None))
+                                                 hash="coarse" if isinstance(self, _CoarseHash) else None,
+                                                 mixed=isinstance(self, WCM)))
             right = right.with_(stats=self.stats)
             assert right.right is None, "pairs do not nest"
         self.right = right
@@ -134,17 +135,20 @@ class WC(CombinatorialClass[W]):
                 "stats": [list(s) for s in self.stats], "bytes": isinstance(self, WCB),
                 "proper": self.proper,
                 "hash": "coarse" if isinstance(self, _CoarseHash) else None,
-                "flags": self.flags, "lazymin": self.lazymin,
+                "flags": self.flags, "lazymin": self.lazymin, "mixed": isinstance(self, WCM),
                 "right": None if self.right is None else self.right.descriptor()}
 
     @staticmethod
     def from_descriptor(d):
         cls = WCB if d.get("bytes") else WC
+        if d.get("bytes") and d.get("mixed"):
+            cls = WCMA if d["just_prefix"] else WCM
         if d.get("hash") == "coarse":
             cls = WCBH if d.get("bytes") else WCH
         right = d.get("right")
         if right is not None:
-            right = WC.from_descriptor(dict(right, bytes=bool(d.get("bytes")), hash=d.get("hash")))
+            right = WC.from_descriptor(dict(right, bytes=bool(d.get("bytes")), hash=d.get("hash"),
+                                             mixed=d.get("mixed")))
         return cls(d["prefix"], d["patterns"], d["alphabet"], d["just_prefix"],
                    [tuple(s) for s in d["stats"]], d.get("proper", False), right, d.get("flags") or "",
                    bool(d.get("lazymin")))
@@ -258,6 +262,28 @@ class WCB(WC):
         if right is not None:
             right = cls.from_bytes(right.encode())
         return cls(p, pats, al, jp, [tuple(s) for s in st], pr, right, flags, lazymin)
+
+
+class WCM(WCB):
+    """A mixed family: the classes are stored compressed, except the atoms, which are of a
+    subclass without to_bytes (one class database then holds compressed and raw keys)."""
+
+    def with_(self, **kw):
+        d = dict(prefix=self.prefix, patterns=self.patterns, alphabet=self.alphabet,
+                 just_prefix=self.just_prefix, stats=self.stats, proper=self.proper, right=self.right,
+                 flags=self.flags, lazymin=self.lazymin)
+        d.update(kw)
+        if d["just_prefix"]:
+            d["proper"] = False
+            return WCMA(**d)
+        return WCM(**d)
+
+
+class WCMA(WCM):
+    """Atoms of the mixed family: they opt out of compression."""
+
+    def to_bytes(self):
+        raise NotImplementedError("atoms are kept as they are")
 
 
 class _CoarseHash:
@@ -470,14 +496,30 @@ class RemoveFront(_Opts, CartesianProductStrategy[WC, W]):
         self.swap = bool(swap)
         super().__init__(**kw)
 
+    def _atom_groups(self, c, word):
+        """merge: statistics that agree on the letters of the atom collapse onto the first of
+        them (they may differ elsewhere: several parent parameters share one parameter of this
+        factor although their values on whole words differ)."""
+        plan, first = {}, {}
+        for k, letters in atom_stats(c, word, self.drop):
+            r = "".join(sorted(set(letters) & set(word)))
+            first.setdefault(r, k)
+            plan[k] = first[r]
+        return plan
+
     def _atom_stats(self, c, word):
         stats = list(atom_stats(c, word, self.drop))
+        if self.merge:
+            plan = self._atom_groups(c, word)
+            return [(k, l) for k, l in stats if plan[k] == k]
         if self.swap and len(c.stats) >= 2 and len(stats) == len(c.stats):
             (k0, l0), (k1, l1) = stats[0], stats[1]
             stats[0], stats[1] = (k0, l1), (k1, l0)
         return stats
 
     def _atom_map(self, c, child):
+        if self.merge:
+            return self._atom_groups(c, child.prefix)
         if self.swap and len(c.stats) >= 2 and len(child.stats) == len(c.stats):
             names = [k for k, _ in c.stats]
             m = {k: k for k in names}
@@ -543,21 +585,42 @@ class SplitPair(_Opts, CartesianProductStrategy[WC, W]):
     """[A] | [B]  =  A x {'|'} x B : a product with two non-trivial factors (several
     compositions of a size), the separator being an atom without statistics."""
 
-    OPTS = ("bar_first",)
+    OPTS = ("bar_first", "merge")
 
-    def __init__(self, bar_first=False, **kw):
+    def __init__(self, bar_first=False, merge=False, **kw):
         self.bar_first = bool(bar_first)
+        # merge: in a factor some letters may be forbidden outright (single-letter patterns);
+        # statistics that agree on the letters the factor can use collapse onto the first of
+        # them there - several parent parameters share one parameter of a *non-atom* factor
+        # although they differ on the other factor
+        self.merge = bool(merge)
         super().__init__(**kw)
+
+    def _plan(self, part):
+        usable = set(part.alphabet) - {p for p in part.patterns if len(p) == 1}
+        plan, first = {}, {}
+        for k, letters in part.stats:
+            r = "".join(sorted(set(letters) & usable))
+            first.setdefault(r, k)
+            plan[k] = first[r]
+        return plan
+
+    def _part(self, part):
+        if not self.merge:
+            return part
+        plan = self._plan(part)
+        return part.with_(stats=[(k, l) for k, l in part.stats if plan[k] == k])
 
     @staticmethod
     def _bar(c):
-        return WC("|", (), tuple(c.alphabet) + ("|",), just_prefix=True, stats=()) if not isinstance(c, WCB) \
-            else WCB("|", (), tuple(c.alphabet) + ("|",), just_prefix=True, stats=())
+        # the separator atom, of the same class family as c (plain / compressed / mixed)
+        return c.with_(prefix="|", patterns=(), alphabet=tuple(c.alphabet) + ("|",), just_prefix=True, stats=(),
+                       proper=False, right=None, flags="")
 
     def decomposition_function(self, c):
         if c.right is None or c.is_empty():
             return None
-        kids = [c.left_part(), self._bar(c), c.right]
+        kids = [self._part(c.left_part()), self._bar(c), self._part(c.right)]
         if self.bar_first:
             kids = [kids[1], kids[0], kids[2]]
         return tuple(kids)
@@ -567,10 +630,15 @@ class SplitPair(_Opts, CartesianProductStrategy[WC, W]):
             children = self.decomposition_function(c)
             if children is None:
                 raise StrategyDoesNotApply("Strategy does not apply")
-        return tuple({k: k for k in ch.extra_parameters} for ch in children)
+        if not self.merge:
+            return tuple({k: k for k in ch.extra_parameters} for ch in children)
+        parts = [c.left_part(), None, c.right]
+        if self.bar_first:
+            parts = [parts[1], parts[0], parts[2]]
+        return tuple({} if part is None else self._plan(part) for part in parts)
 
     def formal_step(self):
-        return f"split pair(bar_first={self.bar_first})"
+        return f"split pair(bar_first={self.bar_first},merge={self.merge})"
 
     def backward_map(self, c, objs, children=None):
         objs = list(objs)
@@ -633,6 +701,19 @@ class MinimisePatterns(_Inferral):
 
     def formal_step(self):
         return "minimise patterns"
+
+
+class MinimiseNE(MinimisePatterns):
+    """The same rule, declared two-way but *not* an equivalence (can_be_equivalent False): the
+    default rule database puts both classes under one equivalence label although the rule
+    stays an ordinary single-child rule in specifications - the case the equivalence-path
+    variant of the parallel finder exists for."""
+
+    def can_be_equivalent(self):
+        return False
+
+    def formal_step(self):
+        return "minimise patterns (two-way, not an equivalence)"
 
 
 class DropDeadStat(_Inferral):
@@ -1005,6 +1086,38 @@ class PrefixVerified(VerificationStrategy[WC, W]):
         return f"PrefixVerified(minlen={self.minlen}{', nest=%d' % self.nest if self.nest else ''})"
 
 
+class PackVerified(VerificationStrategy[WC, W]):
+    """Verifies like PrefixVerified but brings no enumeration of its own: terms, objects,
+    generating functions and samples come from the library's defaults, which search the class
+    with the offered pack (VerificationStrategy.get_specification) every time they are asked."""
+
+    def __init__(self, minlen=2, ignore_parent=False):
+        self.minlen = int(minlen)
+        super().__init__(ignore_parent=ignore_parent)
+
+    def verified(self, c):
+        return ((not c.just_prefix) and c.right is None and not c.flags and (not c.is_empty())
+                and len(c.prefix) >= self.minlen)
+
+    def pack(self, c):
+        return make_pack({"ver": "atom"})
+
+    def formal_step(self):
+        return f"prefix of length >= {self.minlen} (searched with the offered pack)"
+
+    def to_jsonable(self):
+        d = super().to_jsonable()
+        d["minlen"] = self.minlen
+        return d
+
+    @classmethod
+    def from_dict(cls, d):
+        return cls(**d)
+
+    def __repr__(self):
+        return f"PackVerified(minlen={self.minlen})"
+
+
 # ----------------------------------------------------------------------------- packs
 
 PACK_DEFAULTS = {
@@ -1020,6 +1133,8 @@ def offered_packs(opts):
     o = dict(PACK_DEFAULTS)
     o.update(opts or {})
     out = []
+    if str(o["ver"]).startswith("searched"):
+        out.append(make_pack({"ver": "atom"}))
     if str(o["ver"]).startswith("prefix"):
         k, nest = int(o["ver"][6:]), int(o.get("nest", 0))
         while nest > 0:
@@ -1047,10 +1162,10 @@ def make_pack(opts=None):
         expand = Expand(drop=o["drop"], order=o["order"], plus=o["plus"], dead=o.get("dead", False))
     else:
         expand = ExpandFactory(mode=o["factory"], drop=o["drop"], plus=o["plus"])
-    inf_map = {"minimise": MinimisePatterns, "deadstat": DropDeadStat, "merge": MergeStats,
+    inf_map = {"minimise": MinimisePatterns, "minimise_ne": MinimiseNE, "deadstat": DropDeadStat, "merge": MergeStats,
                "rename": RenameStats, "track": TrackStat}
     inferral = [inf_map[name]() for name in o["inferral"]]
-    split_pair = SplitPair(bar_first=o["order"] == 1)
+    split_pair = SplitPair(bar_first=o["order"] == 1, merge=o.get("merge", False))
     twice = [ExpandTwice(which=w, drop=o["drop"]) for w in o.get("twice") or ()]
     if o.get("both") and o["factory"] is None:
         # the one-step expansion in its other form as well (plain and plus-mode side by side)
@@ -1067,6 +1182,8 @@ def make_pack(opts=None):
         ver = [StatAtom()]
     elif o["ver"] == "libatom":
         ver = [AtomStrategy()]
+    elif str(o["ver"]).startswith("searched"):
+        ver = [StatAtom(), PackVerified(int(o["ver"][8:]))]
     else:
         ver = [StatAtom(), PrefixVerified(int(o["ver"][6:]), nest=int(o.get("nest", 0)))]
     return StrategyPack(
